@@ -1,10 +1,10 @@
 SPECIFICATION Spec
-CONSTANT N = 6
-CONSTANT K = 3
+CONSTANT N = 4
+CONSTANT K = 4
 CONSTANT Funct = FALSE
 CONSTANT AsCoded = FALSE
-CONSTANT Inputs = "und"
-CONSTANT Lemmas = FALSE
+CONSTANT Inputs = "dir"
+CONSTANT Lemmas = TRUE
 INVARIANT LibInv
 INVARIANT VisitInv
 INVARIANT ProgressInv
